@@ -277,6 +277,9 @@ def worker_main(argv):
     keys = set()
     ikeys = set()
     seen_classes = set()
+    record = None
+    if os.environ.get("VERIF_RECORD_DIGESTS"):
+        record = open(os.environ["VERIF_RECORD_DIGESTS"] + f".{start}", "w")
     regress = engine.regression_scenarios() if start == 0 else []
     todo = [("reg", i, sc) for i, sc in enumerate(regress)]
     todo += [("gen", i, None) for i in range(start, count, stride)]
@@ -306,6 +309,8 @@ def worker_main(argv):
                 break
             continue
         res = payload
+        if record is not None:
+            record.write(f"{i}\t{res.get('digest')}\t{sorted(v['class'] for v in res.get('violations', ()))}\n")
         for k in res.get("keys", ()):
             keys.add(k)
         for k in res.get("ikeys", ()):
@@ -343,6 +348,8 @@ def worker_main(argv):
             })
         if len(seen_classes) >= 4:
             break
+    if record is not None:
+        record.close()
     summ["keys"] = sorted(keys)
     summ["ikeys"] = sorted(ikeys)
     summ["wall_s"] = time.monotonic() - t0
@@ -395,7 +402,8 @@ def write_replay(prop, v, tier, hashseed):
 
 
 def hashseed_for(batch_seed, k):
-    return (batch_seed * 7919 + k * 104729 + 17) % 4294967295
+    base = int(os.environ.get("VERIF_HASHSEED_BASE", "0") or 0)
+    return (batch_seed * 7919 + k * 104729 + 17 + base * 7907) % 4294967295
 
 
 def main(argv=None):
